@@ -7,7 +7,7 @@
    real builders and [slice] to Array::slice / ArrayData::slice on every generated layout. *)
 From Coq Require Import List Arith NArith ZArith Bool.
 From AV Require Import Base.Bytes Model.C09_Layout Model.C02_Logical Model.C02_Equal Model.C02_Rows.
-From AV Require Import Proofs.C02_Slice Proofs.C02_Readback Proofs.C02_EqualNulls Proofs.C02_EqualPrim Proofs.C02_EqualBool Proofs.C02_EqualBin Proofs.C02_EqualList Proofs.C02_EqualListPrim Proofs.C02_Rows.
+From AV Require Import Proofs.C02_Slice Proofs.C02_Readback Proofs.C02_EqualNulls Proofs.C02_EqualPrim Proofs.C02_EqualBool Proofs.C02_EqualBin Proofs.C02_EqualList Proofs.C02_EqualListPrim Proofs.C02_EqualDict Proofs.C02_Rows.
 Import ListNotations.
 
 (* ---- slicing is a window on the logical content: EVERY modelled type (Null, Boolean, fixed width,
@@ -129,6 +129,23 @@ Theorem equal_iff_logical_list_of_primitive : forall large nullable w a b,
   (equal a b = true <-> p_ty a = p_ty b /\ logical a = logical b).
 Proof. exact equal_iff_logical_list_prim. Qed.
 Print Assumptions equal_iff_logical_list_of_primitive.
+
+(* Dictionary, compositional: the code compares dictionaries by the values their keys select — permuted,
+   duplicated and unused dictionary entries are irrelevant.  (Key validity itself is compared by equal_nulls:
+   a valid key selecting a null value and a null key are told apart, see the findings.) *)
+Theorem dictionary_equal_range : forall (kw : nat) (signed : bool) (v : dty) (alen aoff : nat) (anulls : option nullbuf)
+    (abufs : list (list N)) (ka : parr) (akids : list parr) (b kb : parr) (bkids : list parr),
+  let a := PArr (TDict kw signed v) alen aoff anulls abufs (ka :: akids) in
+  p_kids b = kb :: bkids ->
+  (forall s1 s2, s1 < p_len ka -> s2 < p_len kb ->
+     (equal_nulls ka kb s1 s2 1 && equal_values ka kb s1 s2 1 = true <-> logical_at ka s1 = logical_at kb s2)) ->
+  forall ls rs n, keys_ok kw signed a ka ls n -> keys_ok kw signed b kb rs n ->
+  (forall i, i < n -> slot_valid a (ls + i) = slot_valid b (rs + i)) ->
+  (equal_values a b ls rs n = true
+   <-> forall i, i < n -> slot_valid a (ls + i) = true ->
+         logical_at ka (Z.to_nat (dkey kw signed a (ls + i))) = logical_at kb (Z.to_nat (dkey kw signed b (rs + i)))).
+Proof. exact dictionary_equal_iff. Qed.
+Print Assumptions dictionary_equal_range.
 
 (* equal_nulls / contains_nulls through the BitSliceIterator specification *)
 Theorem equal_nulls_spec : forall a b ls rs n,
